@@ -93,6 +93,8 @@ class E2EStream(Stream):
     """oracle-only end-to-end stream"""
     name = 'e2e'
     model = False
+    case_timeout = 1500
+    mem_limit_gb = None
     quick_n, thorough_n = 3, 14
     nq_quick, nq_thorough = 24, 40
 
@@ -182,6 +184,7 @@ class CandidateStream(Stream):
     prelude = pl.ALIGN_CHECK
     shard = 150
     parallel = False
+    mem_limit_gb = None
     e2e_cls = E2EStream
     max_per_dataset = 400
 
@@ -281,6 +284,7 @@ class RunModelStream(Stream):
     """whole runs: the Coordinator/MultiPass model, given the seeds captured from the real run, must reproduce every output file"""
     name = 'e2e_run_model'
     prelude = RUN_PRELUDE
+    mem_limit_gb = None
     case_type = 'rcase'
     shard = 1
     parallel = False
